@@ -238,3 +238,25 @@ theorem unlinesNL_lines_of_no_cr (s : Str) (h : '\r' ∉ s) :
   exact unlinesNL_rawLines s
 
 end Deb822Verif.Text
+
+/-! ### non-vacuity of the lemmas' hypotheses -/
+namespace Deb822Verif.Text
+
+example : lines (unlinesNL ["ab".toList, []] ++ "c\r".toList) = ["ab".toList, [], "c\r".toList] := by
+  rw [lines_unlinesNL_append _ (by
+    intro l hl; simp at hl
+    rcases hl with rfl | rfl <;> constructor <;> decide)]
+  decide
+example : lines ['\r'] ≠ [] := lines_ne_nil _ (by decide)
+example : lines "ab\r".toList = ["ab\r".toList] := by rw [lines_no_nl _ (by decide)]; decide
+example : "ab\nc".toList = unlinesNL ["ab".toList, "cd".toList] ∨
+    ∃ a l b u, ["ab".toList, "cd".toList] = a ++ l :: b ∧ u <+: l ∧ "ab\nc".toList = unlinesNL a ++ u :=
+  prefix_unlinesNL _ _ (by decide)
+example : ∀ l ∈ lines "a\nb".toList, LineOK l := lines_ok_of_no_cr _ (by decide)
+example : "a\nb".toList = unlinesNL (lines "a\nb".toList) ∨ "a\nb".toList ++ ['\n'] = unlinesNL (lines "a\nb".toList) :=
+  unlinesNL_lines_of_no_cr _ (by decide)
+/-- the CR-freeness hypothesis of `unlinesNL_lines_of_no_cr` is needed -/
+example : ¬ ("a\r\n".toList = unlinesNL (lines "a\r\n".toList) ∨
+    "a\r\n".toList ++ ['\n'] = unlinesNL (lines "a\r\n".toList)) := by decide
+
+end Deb822Verif.Text
